@@ -191,7 +191,9 @@ def lift_py(c):
         return Str(c.decode('latin-1'), is_bytes=True)
     if c is None:
         return NONE
-    if isinstance(c, (frozenset, set, tuple, list)):
+    if isinstance(c, (tuple, list)):
+        return V('tuple', None, items=[lift_py(x) for x in c])
+    if isinstance(c, (frozenset, set)):
         return V('cset', None, items=[lift_py(x) for x in c])
     raise Unsupported(f'lift {type(c)}')
 
@@ -420,6 +422,7 @@ class Engine:
 
     def point(self, kind, name, node, st, result=None):
         """program point `kind:name` (call:NAME | yield | assign:self.X): obligations first, then ghost updates"""
+        st.ghost['$point_value'] = result
         for pat, claims in self.at.items():
             if self._pmatch(pat, kind, name):
                 for cname, fn in claims:
@@ -711,7 +714,11 @@ class Engine:
             if n in vals:
                 out.append(vals[n])
             elif n in defaults:
-                out.append(self.lift_const(_const_eval(defaults[n], consts, imports)))
+                dv = _const_eval(defaults[n], consts, imports)
+                if isinstance(dv, int) and not isinstance(dv, bool) and n != 'flags':
+                    out.append(Int(dv))
+                else:
+                    out.append(self.lift_const(dv))
             else:
                 raise Unsupported(f'missing argument {n} in call to {module}.{qual}')
         extra = set(vals) - set(names)
@@ -736,6 +743,18 @@ class Engine:
             r = U('len', a, ret='int')
             st.pc.append(r.t >= 0)
             return r
+        if name == 'isinstance' and 'isinstance' not in self.hooks and len(e.args) == 2:
+            a = self.ev(e.args[0], st)
+            cls = self.dotted(e.args[1])
+            if a.kind == 'str':
+                isb = a.a.get('is_bytes', False)
+                if cls == 'bytes':
+                    return Bool(isb)
+                if cls == 'str':
+                    return Bool(not isb)
+                if cls in ('(str, bytes)', '(bytes, str)'):
+                    return Bool(True)
+            return U('isinstance:' + cls, a if a.kind != 'list' else ObjV(to_obj(a)), ret='bool')
         if name == 'set' and not e.args:
             sort = getattr(self.c, 'set_sort', z3.StringSort())
             return V('set', z3.EmptySet(sort))
@@ -751,21 +770,28 @@ class Engine:
             r = self.hooks[name](self, e, st, [self.ev(a, st) for a in e.args] if not any(isinstance(a, ast.Starred) for a in e.args) else None)
             return r
         short = name.split('.')[-1] if name else ''
-        if name and name.startswith('self.') and name.count('.') == 1 and short not in self.pure:
-            raise Unsupported(f'call to self.{short} without contract/hook (would need a frame)')
         # pure uninterpreted function of the arguments; repo functions get normalised argument lists
         target = getattr(self.c, 'callees', {}).get(name)
         if target is not None:
             args = self.norm_args(target[0], target[1], e, st)
             self.point('call', short, e, st)
             return U(f'{target[0]}.{target[1]}', *args, ret=target[2] if len(target) > 2 else 'obj')
+        if name and name.startswith('self.') and name.count('.') == 1 and short not in self.pure:
+            raise Unsupported(f'call to self.{short} without contract/hook (would need a frame)')
         if any(isinstance(a, ast.Starred) for a in e.args) or any(k.arg is None for k in e.keywords):
             raise Unsupported('star args')
         args = [self.ev(a, st) for a in e.args]
         kws = sorted((k.arg, self.ev(k.value, st)) for k in e.keywords)
-        if isinstance(e.func, ast.Attribute) and not (isinstance(e.func.value, ast.Name) and (e.func.value.id in self.imports or e.func.value.id in ('os', 're', 'util', 'bracex', 'functools', 'copyreg', 'stat'))):
+        if isinstance(e.func, ast.Attribute) and not (isinstance(e.func.value, ast.Name) and e.func.value.id not in st.env and (e.func.value.id in self.imports or e.func.value.id in ('os', 're', 'util', 'bracex', 'functools', 'copyreg', 'stat'))):
             recv = self.ev(e.func.value, st)
             mname = e.func.attr
+            if recv.kind == 'list' and mname == 'append' and len(args) == 1:
+                nl = V('list', None, length=recv.a['length'] + 1, elem=recv.a.get('elem'), tail=list(recv.a.get('tail', [])) + [args[0]])
+                self.store_back(e.func.value, nl, st)
+                return NONE
+            if recv.kind == 'set' and mname == 'add' and len(args) == 1:
+                self.store_back(e.func.value, V('set', z3.SetAdd(recv.t, args[0].t)), st)
+                return NONE
             if recv.kind == 'str' and mname == 'endswith' and len(args) == 1 and args[0].kind == 'str':
                 return Bool(z3.SuffixOf(args[0].t, recv.t))
             if recv.kind == 'str' and mname == 'startswith' and len(args) == 1 and args[0].kind == 'str':
@@ -789,6 +815,14 @@ class Engine:
             if len(frontier) > 4000:
                 raise Unsupported('path explosion')
         return frontier
+
+    def store_back(self, target, val, st):
+        if isinstance(target, ast.Name):
+            st.env[target.id] = val
+        elif isinstance(target, ast.Attribute) and self.dotted(target.value) == 'self':
+            st.fields[target.attr] = val
+        else:
+            raise Unsupported('mutation of ' + ast.dump(target)[:60])
 
     def assign(self, target, val, st, node=None):
         if isinstance(target, ast.Name):
@@ -1072,6 +1106,9 @@ class Engine:
                 return out + cur
             else:
                 raise Unsupported(f'iteration over {seqv.kind}')
+        oe = getattr(self.c, 'on_entry', {}).get(ordn)
+        if oe:
+            oe(self, st, s)
         self.oblige(f'{tag}.inv_entry', st, inv(st, z3.IntVal(0)), s)
         h = self.havoc_loop(s, st, ordn)
         k = z3.Int(fresh(f'k{ordn}'))
@@ -1093,7 +1130,10 @@ class Engine:
         if self.feasible(ex):
             out.extend(self.block(s.orelse, ex) if s.orelse else [(ex, Outcome('normal'))])
         b = h.fork(k < it.length, f'loop{ordn}:iter')
-        self.assign(s.target, it.elem(k), b)
+        el = it.elem(k)
+        b.ghost[f'$elem{ordn}'] = el
+        b.ghost['$loops'] = tuple(b.ghost.get('$loops', ())) + (ordn,)
+        self.assign(s.target, el, b)
         hook = getattr(self.c, 'on_iter', {}).get(ordn)
         if hook:
             hook(self, b, k)
@@ -1101,8 +1141,11 @@ class Engine:
             if oc.kind in ('normal', 'continue'):
                 self.oblige(f'{tag}.inv_preserved', s2, inv(s2, k + 1), s)
             elif oc.kind == 'break':
+                s2.ghost['$loops'] = tuple(x for x in s2.ghost.get('$loops', ()) if x != ordn)
                 out.append((s2, Outcome('normal')))
             else:
+                if oc.kind == 'raise':
+                    s2.ghost['$loops'] = tuple(x for x in s2.ghost.get('$loops', ()) if x != ordn)
                 out.append((s2, oc))
         return out
 
@@ -1170,6 +1213,8 @@ class Engine:
     # ---- driver
     def run(self, params, fields=None, ghost=None, pre=None):
         st = St(env=dict(params), fields=dict(fields or {}), ghost=dict(ghost or {}), pc=list(pre or []))
+        if self.is_generator:
+            st.ghost.setdefault('$yields', z3.IntVal(0))
         res = self.block(self.fn.body, st)
         final = []
         for s, oc in res:
